@@ -6,8 +6,20 @@ import (
 	"bufio"
 	"encoding/json"
 	"io"
+	"os"
 	"sync"
+
+	"github.com/ErdemOzgen/blackdagger/internal/dag"
 )
+
+// removeSockLock removes what a run leaves in /tmp for a DAG file: the status socket of a killed run and the lock file
+// next to it, which the program keeps (one per DAG path - harmless for a few hundred definitions, but the rigs create
+// tens of thousands of temporary ones).
+func removeSockLock(dagFile string) {
+	d := &dag.DAG{Location: dagFile}
+	os.Remove(d.SockAddr())
+	os.Remove(d.SockAddr() + ".lock")
+}
 
 // Ev is one trace event. It is serialised as one JSON object per line; the
 // trace specifications read the file with ndJsonDeserialize.
